@@ -7,8 +7,13 @@ for d in seeded/C*/; do
   id=$(basename "$d")
   [ -f "$d/repo_run.txt" ] && [ -z "${FORCE:-}" ] && continue
   prop=$(python3 -c "import json;print(json.load(open('$d/meta.json'))['breaks_property'])")
-  extra=""
-  case "$id" in C04-4) extra="C06 C07 C17";; C14-3) extra="C13";; esac
+  # changes caught only by the check of a sibling property: run those checks too (named in meta.json)
+  extra=$(python3 -c "
+import json,re
+m=json.load(open('$d/meta.json'))
+own=m['breaks_property']
+txt=(m.get('check_result','')+' '+m.get('caught_by_check','')) if str(m.get('caught_by_check','')).startswith('partly') else ''
+print(' '.join(sorted({c for c in re.findall(r'C[0-9][0-9]', txt) if c != own})))")
   MODE=repo tools/try_seeded.sh "/verif/$d" "$prop" $extra 2>&1 | grep -E "^SUMMARY|^   C..: " > "$d/repo_run.txt"
   git -C /repo diff --quiet || { echo "REPO DIRTY after $id"; git -C /repo checkout -- .; }
   echo "$id: $(grep SUMMARY $d/repo_run.txt | sed 's/.*checks=//')"
